@@ -93,6 +93,8 @@ mod reusable_stream;
 #[cfg(test)]
 mod tests;
 mod transient_stream;
+#[cfg(feature = "verif_hooks")]
+pub mod verif;
 
 pub(crate) use config::*;
 use handshake::Handshake;
